@@ -352,6 +352,8 @@ func c03Run(ls *c03LockSets, prog c03Program, ch *sched.Chooser) c03Outcome {
 	key := fmt.Sprintf("%v/%d", prog.MultiReader, prog.Concurrency)
 	l1 := fakemc.NewStore("L1")
 	l2 := fakemc.NewStore("L2")
+	t0 := l1.T0()
+	l2.ResetAt(t0) // one virtual clock for both tiers: deadlines are compared at the end
 	init := map[string]linState{}
 	if prog.Init != "absent" {
 		for _, k := range []string{"ka", "kb"} {
@@ -465,12 +467,14 @@ func c03Run(ls *c03LockSets, prog c03Program, ch *sched.Chooser) c03Outcome {
 				out.Bad = "after all commands completed L1 holds a key that L2 lacks"
 			} else if !bytes.Equal(e1.Value, e2.Value) || e1.Flags != e2.Flags {
 				out.Bad = "after all commands completed an L1 entry differs from L2's"
+			} else if e1.Deadline != e2.Deadline {
+				out.Bad = "after all commands completed an L1 entry's expiry differs from L2's"
 			}
 			if out.Bad != "" {
 				out.Witness["key"] = k
-				out.Witness["l1"] = fmt.Sprintf("%q flags=%d", e1.Value, e1.Flags)
+				out.Witness["l1"] = fmt.Sprintf("%q flags=%d deadline=%d", e1.Value, e1.Flags, e1.Deadline)
 				if ok {
-					out.Witness["l2"] = fmt.Sprintf("%q flags=%d", e2.Value, e2.Flags)
+					out.Witness["l2"] = fmt.Sprintf("%q flags=%d deadline=%d", e2.Value, e2.Flags, e2.Deadline)
 				}
 				out.Witness["history"] = desc
 				break
@@ -495,13 +499,19 @@ func c03Cmd(kind string, key string, vi *int, opaque uint32) wire.Cmd {
 		*vi++
 		return c03Values[*vi%len(c03Values)]
 	}
+	ttl := func() uint32 {
+		*vi++
+		return []uint32{0, 1000, 5000, 9000, 20000}[*vi%5]
+	}
 	switch kind {
 	case "set", "add", "replace":
-		c.Op, c.Value, c.Flags = kind, val(), uint32(1000+*vi)
+		c.Op, c.Value, c.Flags, c.TTL = kind, val(), uint32(1000+*vi), ttl()
 	case "append", "prepend":
 		c.Op, c.Value = kind, val()
-	case "delete", "touch", "gat":
+	case "delete":
 		c.Op = kind
+	case "touch", "gat":
+		c.Op, c.TTL = kind, ttl()
 	case "get":
 		c = wire.Cmd{Op: "get", Keys: []string{key}, Opaque: opaque}
 	case "mget":
